@@ -96,6 +96,7 @@ type FuncGen struct {
 	curGuard string
 	seed     []string
 	safety   bool
+	assumeSafe bool
 	nonEsc   map[ssa.Value]bool
 	localRefs []string // refs of non-escaping local allocations made so far (terms)
 	// localRefClasses: for a local ref, the heap classes in which it can hold data (fields of its struct type,
@@ -182,8 +183,11 @@ func genOnce(prog *Program, fn *ssa.Function, ct *FuncContract, seed []string, s
 	if fn.Pkg != nil {
 		g.pkg = fn.Pkg.Pkg
 	}
-	if ct != nil && ct.Options["safety"] == "off" {
+	if ct != nil && (ct.Options["safety"] == "off" || ct.Options["safety"] == "assume") {
 		g.safety = false
+		// option safety assume: no safety obligations, but execution past an index expression or a dereference
+		// continues only if it did not panic (a panic is not a normal return, so postconditions do not cover it)
+		g.assumeSafe = ct.Options["safety"] == "assume"
 	}
 	g.fnName = shortFuncName(fn)
 	for _, cl := range seed {
@@ -1272,6 +1276,7 @@ type Env struct {
 	old   *State
 	look  func(name string) (Val, bool)
 	ambig map[string]bool // names a ghost statement must not use: they mean different things in caller and callee
+	freshBase *State      // if set, fresh(x) means "allocated after this state" instead of after `old`
 	pkg   *types.Package
 	label string
 	inOld bool
@@ -1408,6 +1413,10 @@ func valueBlock(v ssa.Value) *ssa.BasicBlock {
 
 func (g *FuncGen) safe(kind string, in ssa.Instruction, cond string, text string) {
 	if !g.safety || cond == "true" {
+		if g.assumeSafe && cond != "true" && (kind == "bounds" || kind == "nil" || kind == "slice-bounds" || kind == "makeslice" || kind == "div" || kind == "type-assert") {
+			g.c.note("option safety assume: execution continues past index/dereference only if it did not panic")
+			g.c.assert(implies(g.bcond[g.curBlock], cond))
+		}
 		return
 	}
 	key := kind + "@" + text
